@@ -1208,6 +1208,11 @@ def gen_collect_scenario(R, reject_bias=0.0, n_ops=None):
     n_agents = 0
     removed = set()
     list_attrs = set()
+    # model attributes that are mutable objects and keep changing: preferably the ones the reporters read
+    read = [int(l.split()[-1]) for l in head if l.startswith("mrep") and l.split()[1] in ("attr", "fn", "meth") and l.split()[-2] in ("attr", "get")]
+    for a in sorted(set(read))[: R.choice([0, 1, 2, 2])]:
+        lines.append(f"mset {a} {R.choice(LISTS)}")
+        list_attrs.add(a)
     for _ in range(n_ops or R.randrange(6, 30)):
         k = R.random()
         if k < 0.16:
